@@ -6,11 +6,27 @@ import gen, oracle
 
 
 def correspond(ck, res, cf, hbin, tag, env=None):
-    """runs both sides on the case file; returns (impl, model) dicts id -> list of lines"""
+    """runs both sides on the case file; returns (impl, model) dicts id -> list of lines.
+    Draw streams printed by the implementation side (identically seeded StdRng, see harness) are fed
+    to the model's copy of the case (two passes), and removed from the observations."""
     if hbin is None:
         return {}, {}
     impl, f1 = ck.run_sharded(hbin, cf.lines, tag + ".impl", env=env)
-    model, f2 = ck.run_sharded(os.path.join(ck.ROOT, "ocaml", "driver"), cf.lines, tag + ".model")
+    lines = cf.lines
+    if any(l.startswith("seed ") for l in cf.lines):
+        lines = []
+        cur = None
+        for l in cf.lines:
+            if l.startswith("CASE "):
+                cur = l.split()[1]
+            if l == "END" and cur in impl:
+                for o in impl[cur]:
+                    if o.startswith("draws "):
+                        lines.append(o)
+            lines.append(l)
+        for cid in impl:
+            impl[cid] = [o for o in impl[cid] if not o.startswith("draws ")]
+    model, f2 = ck.run_sharded(os.path.join(ck.ROOT, "ocaml", "driver"), lines, tag + ".model")
     if f1:
         res.broken.append(("correspondence", "harness process failed", str(f1)))
     if f2:
@@ -704,3 +720,188 @@ def check_C13(ck, res, replay):
     res.cov["samples"] = [cf.meta[c][1] for c in list(cf.meta)[-2:]]
     res.extra["model_mismatches"] = mism
     return ck.finish(res, "proof", ASSUME_COMMON + ["usize arithmetic = unbounded N below depth 64 (guard stated in the theorems)"])
+
+
+# ====================================================================== ADF semantics (C01 .. C05)
+def adf_case_stream(res, rng, n_random, nmax, with_tt2=True, tt3=0, style_max=1):
+    """yields ADF texts: all truth-table ADFs with n <= 2, random truth-table ADFs with n = 3,
+    structured random ADFs, degenerate shapes"""
+    if with_tt2:
+        for n in (1, 2):
+            for t in gen.all_tt_adfs(n):
+                yield t, "tt%d" % n
+    for _ in range(tt3):
+        yield gen.tt_adf(rng, 3), "tt3"
+    for _ in range(n_random):
+        text, n = gen.gen_adf(rng, nmax=nmax, depth=4, style=rng.below(style_max + 1), layout={"shuffle": rng.chance(1, 3)})
+        yield text, "rand"
+    for text in ["s(a).ac(a,a).", "s(a).ac(a,neg(a)).", "s(a).s(b).s(c).ac(a,c).ac(b,and(b,a)).ac(c,c).",
+                 "s(a).s(b).s(c).ac(a,a).ac(b,b).ac(c,c).", "s(a).s(b).ac(a,neg(b)).ac(b,neg(a)).", "s(a).s(b).",
+                 "s(a).ac(a,c(v)).s(b).ac(b,a).s(c).ac(c,b).s(d).ac(d,c).s(e).ac(e,d).",
+                 "s(a).s(b).ac(a,c(f)).ac(a,c(v)).ac(b,a)."]:
+        yield text, "fixed"
+
+
+def judge_adf(text, a, queries, sort="none"):
+    """judges the implementation's answers against the definitions by enumeration; returns [(key, what)]"""
+    bad = []
+    if a is None or any(l.startswith("PANIC") or l.startswith("TIMEOUT") for l in a):
+        if a and any(l.startswith("TIMEOUT") for l in a):
+            return [("timeout", "no answer within the watchdog limit (non-termination)")], None
+        return [("panic", "implementation panicked")], None
+    if not a[0].startswith("parse OK"):
+        return [("parse", "well-formed input rejected: %s" % a[0])], None
+    names_impl = [bytes.fromhex(x[1:]).decode("utf8", "replace") for x in a[0].split()[2].split(",")] if len(a[0].split()) > 2 else []
+    names, conds = oracle.parse_adf_text(text)
+    if sorted(names) != sorted(names_impl):
+        return [("names", "statement names differ: %r vs %r" % (names_impl, names))], None
+    o = oracle.AdfOracle(names_impl, conds)
+    exp_cache = {}
+    def expected(kind):
+        if kind not in exp_cache:
+            exp_cache[kind] = {"grounded": lambda: [o.grounded()], "complete": o.complete, "stable": o.stable, "twoval": o.two_valued}[kind]()
+        return exp_cache[kind]
+    ans = {}
+    for l in a:
+        w = l.split(" ", 1)
+        if w[0].startswith("q") and w[0][1:].isdigit():
+            ans[int(w[0][1:])] = w[1]
+    info = {}
+    for k, q in enumerate(queries):
+        r = ans.get(k)
+        if r is None:
+            bad.append(("missing", "no answer to query %s" % " ".join(q)))
+            continue
+        rw = r.split()
+        kind = q[0]
+        if kind == "grounded":
+            got = rw[1] if len(rw) > 1 else ""
+            if [got] != expected("grounded"):
+                bad.append(("grounded", "grounded: got %s, least fixpoint is %s" % (got, expected("grounded")[0])))
+            info["grounded"] = got
+        elif kind in ("complete", "stable", "stablepre", "stablerew", "stmca", "stmcb", "stmng", "twoval"):
+            sem = {"complete": "complete", "twoval": "twoval"}.get(kind, "stable")
+            got = rw[1:]
+            if got and got[0] == "NONTERMINATION":
+                bad.append(("timeout", "%s: no answer (non-termination)" % kind))
+                continue
+            exp = expected(sem)
+            if len(set(got)) != len(got):
+                bad.append((kind + ":duplicate", "%s lists a model twice: %s" % (kind, got)))
+            if set(got) - set(exp):
+                bad.append((kind + ":unsound", "%s lists %s which is not a %s model (definition: %s)" % (kind, sorted(set(got) - set(exp)), sem, exp)))
+            if set(exp) - set(got):
+                bad.append((kind + ":incomplete", "%s misses %s (listed: %s)" % (kind, sorted(set(exp) - set(got)), got)))
+            if kind == "complete" and got and got[0] != expected("grounded")[0]:
+                bad.append(("complete:order", "the grounded interpretation is not listed first"))
+            info[kind] = len(got)
+    info["n"] = len(names_impl)
+    info["nstable"] = len(expected("stable")) if any(q[0] in ("stable", "stmca", "stmcb", "stmng", "stablepre") for q in queries) else None
+    return bad, info
+
+
+def run_adf_check(ck, res, replay, pid, queries_of, n_quick, n_thorough, nmax_q=7, nmax_t=9, tt3_q=0, tt3_t=0, ties=("TieLeaf",), seeds=False, case_timeout=None):
+    common_front(ck, res, pid, ties=ties)
+    hbin = ck.build_harness(res)
+    rng = gen.Rng(res.seed ^ int(pid[1:], 16))
+    cf = gen.CaseFile()
+    if replay:
+        r = json.load(open(replay))
+        cf.add("ADF", r["body"], meta=r["meta"])
+    else:
+        quick = res.tier == "quick"
+        corpus = os.path.join(ck.ROOT, "corpus", "adf_%s.json" % pid)
+        if os.path.exists(corpus):
+            for c in json.load(open(corpus)):
+                cf.add("ADF", c["body"], prefix="k", meta=c["meta"])
+        for text, origin in adf_case_stream(res, rng, n_quick if quick else n_thorough, nmax_q if quick else nmax_t, tt3=tt3_q if quick else tt3_t):
+            sort = rng.pick(["none", "none", "lexi"])
+            qs = queries_of(rng)
+            body = ["text " + gen.hexs(text), "sort " + sort]
+            if seeds:
+                body.append("seed %d" % rng.below(200))
+            body += ["q " + " ".join(q) for q in qs]
+            cf.add("ADF", body, meta={"text": text, "origin": origin, "queries": qs, "sort": sort})
+    env = {"VERIF_CASE_TIMEOUT_MS": str(case_timeout)} if case_timeout else None
+    impl, model = correspond(ck, res, cf, hbin, pid, env=env)
+    nontriv = set()
+    mism = 0
+    dist = {}
+    for cid, (kind, body, meta) in cf.meta.items():
+        a, b = impl.get(cid), model.get(cid)
+        if a and any(l == "SKIPPED" for l in a):
+            res.extra["skipped_after_timeouts"] = res.extra.get("skipped_after_timeouts", 0) + 1
+            continue
+        bad, info = judge_adf(meta["text"], a, meta["queries"], meta.get("sort", "none"))
+        for key, what in bad:
+            res.violations.append({"key": "adf:" + key, "what": what, "body": body, "meta": meta, "observed": a, "model": b})
+        if info:
+            dist[info["n"]] = dist.get(info["n"], 0) + 1
+            g = info.get("grounded")
+            if (g is None or "u" in g) and info["n"] >= 2:
+                nontriv.add(meta["text"])
+        # required agreement with the model: everything but handle numbers
+        if a and any(l == "SKIPPED" for l in a):
+            res.extra["skipped_after_timeouts"] = res.extra.get("skipped_after_timeouts", 0) + 1
+            continue
+        strip = lambda ls: ["NOANSWER" if (l.startswith("TIMEOUT") or l.endswith("NONTERMINATION")) else l for l in strip0(ls)]
+        if a and any(l.startswith("TIMEOUT") for l in a) and b and any(l.endswith("NONTERMINATION") for l in b):
+            continue
+        strip0 = lambda ls: [re.sub(r"^(q\d+ grounded \S*) .*$", r"\1", l) for l in (ls or []) if not l.startswith("ac ") and " table " not in l]
+        if strip(a) != strip(b):
+            mism += 1
+            if mism <= 5:
+                res.broken.append(("correspondence", "ADF case %s: implementation and model differ" % cid,
+                                   json.dumps({"text": meta["text"], "impl": a, "model": b})[:2500]))
+        elif a != b:
+            res.extra["handle_level_differences"] = res.extra.get("handle_level_differences", 0) + 1
+    res.cov["evaluations"] = len(cf.meta)
+    res.cov["distinct_nontrivial"] = len(nontriv)
+    res.cov["rule"] = ("all truth-table ADFs with 1-2 statements, random truth-table ADFs with 3, structured random ADFs (all nine formula forms, self-support / "
+                       "mutual attack / chain modes, statements without or with repeated ac) and fixed witnesses; with and without lexicographic sorting; "
+                       "non-trivial = at least 2 statements and an undecided statement in the grounded interpretation, distinct texts; answers judged by "
+                       "enumeration of all 3^n / 2^n interpretations and compared (T/F/u level required, handle level reported) with the extracted Coq model")
+    res.cov["samples"] = [cf.meta[c][2]["text"] for c in list(cf.meta)[-12:-9]]
+    res.extra["statements_distribution"] = dist
+    res.extra["model_mismatches"] = mism
+    return res
+
+
+def check_C01(ck, res, replay):
+    run_adf_check(ck, res, replay, "C01", lambda rng: [["grounded"]], 1500, 30000, nmax_q=8, nmax_t=10)
+    return ck.finish(res, "proof", ASSUME_COMMON)
+
+
+def check_C02(ck, res, replay):
+    run_adf_check(ck, res, replay, "C02", lambda rng: [["grounded"], ["complete"]], 800, 12000, nmax_q=7, nmax_t=9)
+    return ck.finish(res, "proof", ASSUME_COMMON)
+
+
+def check_C03(ck, res, replay):
+    run_adf_check(ck, res, replay, "C03", lambda rng: [["stable"], ["stablepre"]] if rng.chance(1, 2) else [["stablepre"], ["stable"]], 1000, 20000, nmax_q=8, nmax_t=10)
+    return ck.finish(res, "proof", ASSUME_COMMON)
+
+
+def check_C04(ck, res, replay):
+    run_adf_check(ck, res, replay, "C04", lambda rng: [["stmca"], ["stmcb"]] if rng.chance(1, 2) else [["stmcb"], ["stmca"]], 1200, 25000,
+                  nmax_q=8, nmax_t=10, tt3_q=3000, tt3_t=60000, ties=("TieLeaf", "TieMoreModels", "TieFlagCount"))
+    return ck.finish(res, "proof", ASSUME_COMMON)
+
+
+HEUS = [["Simple"], ["MinModMinPathsMaxVarImp"], ["MinModMaxVarImpMinPaths"], ["Rand"]]
+
+
+def ng_queries(rng):
+    k = rng.below(8)
+    if k < 4:
+        h = HEUS[k]
+    else:
+        order = rng.shuffle(range(8))
+        h = ["Static", ",".join(map(str, order)), "".join(rng.pick("01") for _ in range(8))]
+    return [[rng.pick(["stmng", "stmng", "twoval"])] + h]
+
+
+def check_C05(ck, res, replay):
+    run_adf_check(ck, res, replay, "C05", ng_queries, 1500, 30000, nmax_q=7, nmax_t=9, tt3_q=500, tt3_t=20000,
+                  ties=("TieLeaf", "TieMoreModels", "TieFlagRand"), seeds=True, case_timeout=8000)
+    return ck.finish(res, "proof", ASSUME_COMMON + ["rand::StdRng is an abstract stream of u64 draws, reproduced by an identically seeded generator in the harness"])
